@@ -46,6 +46,24 @@ Proof.
   - intros u [<-|[]]. right. now left.
 Qed.
 
+Lemma numeric_snippet_ok x src rule n neg cid op kt tp : ok x (numeric_snippet x src rule n neg cid op kt tp).
+Proof.
+  intros env rest Hx Hrest. unfold numeric_snippet. cbn [sn_du sn_value_uses app] in *.
+  apply safe_cons. split; [intros u [<-|[]]; exact Hx|]. apply safe_cons. split; [intros u [<-|[]]; now left|].
+  apply safe_cons. split; [intros u [<-|[]]; now left|]. apply Hrest.
+  - intros u Hu. right. right. right. exact Hu.
+  - intros u [<-|[]]. right. now left.
+Qed.
+Lemma in_snippet_ok x src rule n1 n2 neg vals tp : ok x (in_snippet x src rule n1 n2 neg vals tp).
+Proof.
+  intros env rest Hx Hrest. unfold in_snippet. cbn [sn_du sn_value_uses app] in *.
+  apply safe_cons. split; [intros u [<-|[]]; exact Hx|]. apply safe_cons. split; [intros u [<-|[]]; now left|].
+  apply safe_cons. split; [intros u [<-|[]]; now left|]. apply safe_cons. split; [intros u []|].
+  apply safe_cons. split; [intros u [<-|[<-|[]]]; [now left|right; now left]|]. apply Hrest.
+  - intros u Hu. do 5 right. exact Hu.
+  - intros u [<-|[]]. right. right. now left.
+Qed.
+
 (* the constraints of a branch, each followed by its trace binding *)
 Lemma branch_safe x : forall branch i env rest, In x env -> Forall (ok x) branch ->
   (forall env', incl env env' -> (forall j, i <= j < i + List.length branch -> In (result_var j) env') -> safe_from env' rest = true) ->
